@@ -34,8 +34,8 @@
      as the parser's file number, is DROPPED: it only ends up in the first component of
      every `Loc::File(i, start, end)`, and the reported lines are computed from `start`
      alone (`utils::get_line_number(loc.start(), file_contents)`).  The correspondence
-     check confirms it (per-file oracle computed with file number 0 and 7, directory runs
-     use whatever position the file has);
+     check confirms it (per-file oracle computed with file numbers 0, 7 and 1000, which must
+     agree; directory runs use whatever position the file has);
    * `str::to_lowercase` is modelled as ASCII lowering (bytes 'A'..'Z' + 32, every other
      byte unchanged).  The two differ on non-ASCII letters only, and no non-ASCII character
      has an ASCII character among `.`, `t`, `s`, `o`, `l` in its lower-case expansion
